@@ -42,6 +42,7 @@ type Pipe struct {
 
 // End is one side of a Pipe.
 type End struct {
+	CloseErr error // returned by the next Close (which closes the connection all the same)
 	Name string
 	p    *Pipe
 	peer *End
@@ -249,6 +250,11 @@ func (e *End) Close() error {
 	e.CloseCalls++
 	e.LocalClosed = true
 	e.p.shut()
+	if err := e.CloseErr; err != nil {
+		// the connection is closed, but the first Close reports a failure (a final flush that could not be written)
+		e.CloseErr = nil
+		return err
+	}
 	return nil
 }
 
